@@ -5,15 +5,133 @@ import (
 	"go/ast"
 	"go/token"
 	"go/types"
+	"strings"
 )
 
 func (e *Engine) inL(s *Term, lang string) *Term {
 	e.langUsed[lang] = true
 	if s.IsStr() {
-		// constant string: decide now
+		// constant string: decide now ("by compute")
 		return Bool(reMatch(e.langs.Get(lang), s.Str))
 	}
+	if s.Op == "ite" {
+		return Ite(s.Args[0], e.inL(s.Args[1], lang), e.inL(s.Args[2], lang))
+	}
+	e.langs.Get(lang) // must exist
 	return App("inL:"+lang, SBool, s)
+}
+
+// ProcessLangDirectives defines the code-derived languages declared in contract files.
+func (e *Engine) ProcessLangDirectives() {
+	for _, ld := range e.cs.LangDirs {
+		func() {
+			defer func() {
+				if r := recover(); r != nil {
+					e.rejected["lang:"+ld.Name] = fmt.Sprint(r)
+				}
+			}()
+			pkg := e.pkgs[ld.Pkg]
+			st := NewState()
+			tableOf := func(name string) []string {
+				obj, ok := pkg.Types.Scope().Lookup(name).(*types.Var)
+				if !ok {
+					panic(unsupported("lang %s: unknown table %s", ld.Name, name))
+				}
+				sv, ok := e.globalVar(st, obj).(*SliceV)
+				if !ok || !sv.Len.IsInt() {
+					panic(unsupported("lang %s: %s is not a constant table", ld.Name, name))
+				}
+				n := int(sv.Len.Int.Int64())
+				out := make([]string, n)
+				for i := 0; i < n; i++ {
+					t, ok := sv.At(Int(int64(i))).(*Term)
+					if !ok || !t.IsStr() {
+						panic(unsupported("lang %s: %s[%d] is not a constant string", ld.Name, name, i))
+					}
+					out[i] = t.Str
+				}
+				return out
+			}
+			switch ld.Kind {
+			case "entries":
+				var alts []*Re
+				for _, a := range ld.Args {
+					if strings.HasPrefix(a, "\"") || strings.HasPrefix(a, "`") {
+						lit, err := strconvUnquote(a)
+						if err != nil {
+							panic(unsupported("lang %s: bad literal %s", ld.Name, a))
+						}
+						alts = append(alts, reLit(lit))
+						continue
+					}
+					for _, ent := range tableOf(a) {
+						if ent != "" {
+							alts = append(alts, reLit(ent))
+						}
+					}
+				}
+				e.langs.Define(ld.Name, reAlt(alts...), "(code) "+ld.Text)
+			case "unmapped":
+				var set byteSet
+				var tables [][]string
+				for _, a := range ld.Args {
+					tables = append(tables, tableOf(a))
+				}
+				for b := 0; b < 0x80; b++ {
+					free := true
+					for _, t := range tables {
+						if b < len(t) && t[b] != "" {
+							free = false
+						}
+					}
+					if free {
+						set.add(byte(b))
+					}
+				}
+				e.langs.Define(ld.Name, reSet(set), "(code) "+ld.Text)
+			case "regexp":
+				obj, ok := pkg.Types.Scope().Lookup(ld.Args[0]).(*types.Var)
+				if !ok {
+					panic(unsupported("lang %s: unknown variable %s", ld.Name, ld.Args[0]))
+				}
+				pat, ok := e.regexpLiteral(obj)
+				if !ok {
+					panic(unsupported("lang %s: %s is not regexp.MustCompile(<literal>)", ld.Name, ld.Args[0]))
+				}
+				re, err := FromGoRegexp(pat)
+				if err != nil {
+					panic(unsupported("lang %s: %v", ld.Name, err))
+				}
+				e.langs.Define(ld.Name, re, "(code) Go regexp "+strconvQuote(pat))
+			default:
+				panic(unsupported("lang %s: unknown kind %s", ld.Name, ld.Kind))
+			}
+		}()
+	}
+}
+
+// regexpLiteral returns the pattern of  var x = regexp.MustCompile(`...`)
+// provided x is never assigned elsewhere.
+func (e *Engine) regexpLiteral(v *types.Var) (string, bool) {
+	init := e.globalInitOf(v)
+	call, ok := init.(*ast.CallExpr)
+	if !ok || !e.neverAssigned(v) || len(call.Args) != 1 {
+		return "", false
+	}
+	if exprString(call.Fun) != "regexp.MustCompile" {
+		return "", false
+	}
+	pkg := e.pkgs[v.Pkg().Path()]
+	tv, ok := pkg.TypesInfo.Types[call.Args[0]]
+	if !ok || tv.Value == nil {
+		return "", false
+	}
+	c := constToValue(tv.Value)
+	t, ok := c.(*Term)
+	if !ok || !t.IsStr() {
+		return "", false
+	}
+	return t.Str, true
 }
 
 // globalVar: package-level variables. Variables that are never assigned in
